@@ -375,9 +375,15 @@ func genLog(g *common.Gen, r *common.Rand) {
 		case x < 25:
 			g.Op("ann %d", 100+r.Intn(numApp))
 			g.Stat("ann")
-		case x < 40:
+		case x < 38:
 			g.Op("wd %d", 100+r.Intn(numApp))
 			g.Stat("wd")
+		case x < 40:
+			// commands that are not well-formed (and, for contrast, some that are)
+			g.Op("rv %d %s %s %s", common.Pick(r, []int{6, 6, 6, 5, 7}), common.Pick(r, []string{"rib", "rib", "rib", "fib", "faces"}),
+				common.Pick(r, []string{"register", "unregister", "announce", "list", "Register"}),
+				common.Pick(r, []string{strconv.Itoa(100 + r.Intn(numApp)), strconv.Itoa(100 + r.Intn(numApp)), "x", "n"}))
+			g.Stat("rv")
 		case x < 48:
 			g.Op("burst %d", common.Pick(r, bursts))
 			g.Stat("burst")
@@ -842,15 +848,29 @@ func deliverOne(b int) bool {
 // ControlResponse it replies with; "" when the status is 200, else " status=<code>".
 func readvertise(nd *dvsim.Node, cmd string, name enc.Name) string {
 	params := &mgmt.ControlParameters{Val: &mgmt.ControlArgs{Name: name}}
+	return readvertiseRaw(nd, 6, "rib", cmd, params.Encode().Join())
+}
+
+// readvertiseRaw: a command Interest of any shape - <comps> name components (5: no parameters digest,
+// 7: one more component before the digest), module and verb as given, any bytes as the parameters
+// component.
+func readvertiseRaw(nd *dvsim.Node, comps int, module, cmd string, params []byte) string {
 	iname := enc.Name{
 		enc.NewStringComponent(enc.TypeGenericNameComponent, "localhost"),
 		enc.NewStringComponent(enc.TypeGenericNameComponent, "nlsr"),
-		enc.NewStringComponent(enc.TypeGenericNameComponent, "rib"),
+		enc.NewStringComponent(enc.TypeGenericNameComponent, module),
 		enc.NewStringComponent(enc.TypeGenericNameComponent, cmd),
-		enc.NewBytesComponent(enc.TypeGenericNameComponent, params.Encode().Join()),
+		enc.NewBytesComponent(enc.TypeGenericNameComponent, params),
+	}
+	if comps == 7 {
+		iname = append(iname, enc.NewVersionComponent(1))
+	}
+	var app enc.Wire
+	if comps != 5 {
+		app = enc.Wire{} // empty ApplicationParameters: the name gets its params-sha256 component
 	}
 	sp := spec.Spec{}
-	ei, err := sp.MakeInterest(iname, &ndn.InterestConfig{MustBeFresh: true, Lifetime: utils.IdPtr(time.Second)}, enc.Wire{}, nil)
+	ei, err := sp.MakeInterest(iname, &ndn.InterestConfig{MustBeFresh: true, Lifetime: utils.IdPtr(time.Second)}, app, nil)
 	if err != nil {
 		panic("harness: MakeInterest: " + err.Error())
 	}
@@ -858,7 +878,7 @@ func readvertise(nd *dvsim.Node, cmd string, name enc.Name) string {
 	if err != nil {
 		panic("harness: ReadInterest: " + err.Error())
 	}
-	if len(interest.Name()) != 6 {
+	if len(interest.Name()) != comps {
 		panic("harness: readvertise command name has " + strconv.Itoa(len(interest.Name())) + " components")
 	}
 	var reply enc.Wire
@@ -911,6 +931,34 @@ func execLog(f []string) string {
 			st = readvertise(a, "unregister", pfxName(id))
 		}
 		sim.Settle()
+		return dumpPub() + st
+	case "rv":
+		// rv <comps> <module> <verb> <id|x|n>: any readvertise command through the real handler
+		if len(f) != 5 {
+			return "bad-op"
+		}
+		comps := common.Atoi(f[1])
+		if comps != 5 && comps != 6 && comps != 7 {
+			return "skip"
+		}
+		var params []byte
+		switch f[4] {
+		case "x":
+			params = []byte{0xff, 0x00, 0x01}
+		case "n":
+			params = (&mgmt.ControlParameters{Val: &mgmt.ControlArgs{Cost: utils.IdPtr(uint64(1))}}).Encode().Join()
+		default:
+			id := common.Atoi(f[4])
+			if id < 100 || id >= 100+numApp {
+				return "skip"
+			}
+			params = (&mgmt.ControlParameters{Val: &mgmt.ControlArgs{Name: pfxName(id)}}).Encode().Join()
+		}
+		st := readvertiseRaw(a, comps, f[2], f[3], params)
+		sim.Settle()
+		if st != "" {
+			st = " status=400"
+		}
 		return dumpPub() + st
 	case "burst":
 		m := common.Atoi(f[1])
@@ -1066,7 +1114,7 @@ func exec(op string) string {
 		return "skip"
 	}
 	switch f[0] {
-	case "ann", "wd", "burst", "sync", "pairs", "prestart", "reach", "unreach", "deliver", "timeout", "drain":
+	case "ann", "wd", "rv", "burst", "sync", "pairs", "prestart", "reach", "unreach", "deliver", "timeout", "drain":
 		return execLog(f)
 	}
 	return "skip"
